@@ -33,12 +33,18 @@ class BudgetExceeded(Exception):
 
 
 class _Guard:
-    """Wraps the module-level evaluator with a deterministic work budget (no wall clock)."""
+    """Wraps the module-level evaluator with a deterministic work budget (no wall clock).
 
-    def __init__(self, n_assets):
-        self.max_calls = 5_000
-        self.max_list = 20_000
+    The budget applies per top-level evaluation of one step expression: a terminating evaluator needs at
+    most about size(expr) * (n+1)^2 calls (the subtype case re-evaluates its operand once per target), and
+    check_case() skips cases whose legitimate intermediate lists could exceed MAX_LEGIT_LIST (the toolbox
+    keeps duplicates in intermediate lists, so dense models and long chains are legitimately expensive)."""
+
+    def __init__(self, n_assets, expr_nodes=200):
+        self.max_calls = 64 * (expr_nodes + 8) * (n_assets + 1) ** 2
+        self.max_list = 4 * MAX_LEGIT_LIST
         self.calls = 0
+        self.depth = 0
 
     def __enter__(self):
         import maltoolbox.attackgraph.attackgraph as agm
@@ -50,10 +56,16 @@ class _Guard:
         orig = self.orig
 
         def wrapped(lang_graph, model, target_assets, step_expression):
+            if guard.depth == 0:
+                guard.calls = 0
             guard.calls += 1
             if guard.calls > guard.max_calls or len(target_assets) > guard.max_list:
                 raise BudgetExceeded()
-            return orig(lang_graph, model, target_assets, step_expression)
+            guard.depth += 1
+            try:
+                return orig(lang_graph, model, target_assets, step_expression)
+            finally:
+                guard.depth -= 1
         agm._process_step_expression = wrapped
         return self
 
@@ -63,6 +75,59 @@ class _Guard:
         return False
 
 
+MAX_LEGIT_LIST = 5000
+
+
+def cost_bound(L, nav_fanout, n_assets, expr, s=1, depth=0):
+    """upper bound on the length of the intermediate lists an evaluator that keeps duplicates builds"""
+    t = expr['type']
+    if depth > 40 or s > 10 ** 9:
+        return 10 ** 9
+    if t == 'attackStep':
+        return s
+    if t == 'field':
+        return s * max(1, nav_fanout.get(expr['name'], 0))
+    if t == 'collect':
+        return cost_bound(L, nav_fanout, n_assets, expr['rhs'], cost_bound(L, nav_fanout, n_assets, expr['lhs'], s, depth + 1), depth + 1)
+    if t in ('union', 'intersection', 'difference'):
+        return cost_bound(L, nav_fanout, n_assets, expr['lhs'], s, depth + 1) + cost_bound(L, nav_fanout, n_assets, expr['rhs'], s, depth + 1)
+    if t == 'subType':
+        return max(1, s) * cost_bound(L, nav_fanout, n_assets, expr['stepExpression'], s, depth + 1)
+    if t == 'transitive':
+        return max(n_assets, cost_bound(L, nav_fanout, n_assets, expr['stepExpression'], max(s, n_assets), depth + 1))
+    if t == 'variable':
+        worst = s
+        for a in L.spec['assets']:
+            for v in a['variables']:
+                if v['name'] == expr['name']:
+                    worst = max(worst, cost_bound(L, nav_fanout, n_assets, v['stepExpression'], s, depth + 1))
+        return worst
+    return s
+
+
+def too_expensive(L, mdesc):
+    """True when a legitimate (duplicate-keeping) evaluation of some expression of the language over this
+    model could build lists longer than MAX_LEGIT_LIST - such cases are skipped, never judged"""
+    fan = {}
+    per = {}
+    for ln in mdesc['links']:
+        a = L.assocs[ln['assoc']]
+        for l in ln['left']:
+            per[(l, a['rightField'])] = per.get((l, a['rightField']), 0) + len(ln['right'])
+        for r in ln['right']:
+            per[(r, a['leftField'])] = per.get((r, a['leftField']), 0) + len(ln['left'])
+    for (x, f), c in per.items():
+        fan[f] = max(fan.get(f, 0), c)
+    n = len(mdesc['assets'])
+    for a in L.spec['assets']:
+        for st_ in a['attackSteps']:
+            for key in ('reaches', 'requires'):
+                for e in (st_[key]['stepExpressions'] if st_.get(key) else []):
+                    if cost_bound(L, fan, n, e) > MAX_LEGIT_LIST:
+                        return True
+    return False
+
+
 def _names(objs):
     return [str(o.name) for o in objs]
 
@@ -70,6 +135,8 @@ def _names(objs):
 def generate_graph(spec, mdesc):
     """-> (lg, model, objs, graph, error signature or None, message)"""
     from maltoolbox.attackgraph import AttackGraph
+    if too_expensive(Lang(spec), mdesc):
+        return None, None, None, None, 'skipped-too-expensive', ''
     try:
         lg, cf = build_language(spec)
     except Exception as e:  # a well-formed language must load
@@ -172,6 +239,9 @@ def check_case(case) -> Outcome:
     out.classes += lang_classes(spec)
     am = AbstractModel(L, [a['type'] for a in mdesc['assets']], mdesc['links'])
     lg, model, objs, g, err, msg = generate_graph(spec, mdesc)
+    if err == 'skipped-too-expensive':
+        out.classes.append(err)
+        return out
     # reference
     names = None
     expected = {}      # (asset idx, step) -> (ps interval, ws interval) of sets of (asset idx, step)
